@@ -451,8 +451,28 @@ macro_rules! valconv_poly {
             fn ty() -> TyDesc { TyDesc::Poly(Box::new(<$t>::ty())) }
             /// the value of a polynomial is its list of coefficients without leading zeros
             fn to_val(&self) -> Val { Val::List(self.coefficients().iter().map(|c| c.to_val()).collect()) }
-            /// stored leading zeros are kept, so that `encode` is exercised on unnormalised storage
-            fn from_val(v: &Val) -> Option<Self> { Some(Polynomial::new(<Vec<$t>>::from_val(v)?)) }
+            /// stored leading zeros are kept, so that `encode` is exercised on unnormalised storage; and the storage is
+            /// produced in three different ways (chosen by the number of coefficients), because stored zeros that come
+            /// out of an OPERATION (cancelling leading terms in `+=`) or borrowed storage may be treated differently
+            /// from zeros handed to `Polynomial::new`
+            fn from_val(v: &Val) -> Option<Self> {
+                let cs = <Vec<$t>>::from_val(v)?;
+                Some(match cs.len() % 3 {
+                    1 => {
+                        // a = cs ++ [1], b = 0…0 ++ [-1]; a += b leaves the coefficients cs under a cancelled top term
+                        let one = <$t as num_traits::One>::one();
+                        let mut a = cs.clone();
+                        a.push(one);
+                        let mut b = vec![<$t as num_traits::Zero>::zero(); cs.len()];
+                        b.push(-one);
+                        let mut p = Polynomial::new(a);
+                        p += Polynomial::new(b);
+                        p
+                    }
+                    2 => Polynomial::new_borrowed(Box::leak(cs.into_boxed_slice())),
+                    _ => Polynomial::new(cs),
+                })
+            }
         }
     )+};
 }
